@@ -75,9 +75,14 @@ def run(R, tier):
         container = rng.choice(['list-of-arrays', 'ndarray'])
 
         def arr_mv(keys):
-            vals = [np.array([[float(rng.randint(-4, 4)) for _ in range(int(np.prod(shape)))]]).reshape(shape) for _ in keys]
+            # element types differ between the two operands (integers on one side, quarters on the other): the result must hold
+            # the exact products whatever the dtype of the left operand
+            dt = rng.choice(['float64', 'float64', 'int64', 'float32'])
+            q = 1 if dt == 'int64' else 4
+            vals = [np.array([[rng.randint(-4 * q, 4 * q) / q for _ in range(int(np.prod(shape)))]], dtype=dt).reshape(shape) for _ in keys]
+            R.count('dtype=' + dt)
             if container == 'ndarray':
-                return MultiVector.fromkeysvalues(alg, tuple(keys), np.array(vals))
+                return MultiVector.fromkeysvalues(alg, tuple(keys), np.array(vals, dtype=dt))
             return MultiVector.fromkeysvalues(alg, tuple(keys), vals)
         ka = rng.sample(canon, rng.randint(1, min(4, len(canon))))
         kb = rng.sample(canon, rng.randint(1, min(4, len(canon))))
